@@ -25,7 +25,13 @@ def timed_case(draw, max_sources=3):
     # a zero period is a period too: n immediate postings (never generated as an endless source)
     if src.pop("zero") and src["times"] >= 1:
       src["period"] = draw(st.sampled_from([0, 0.0]))
-  return {"sources": sources, "parked": draw(st.booleans()),
+  stall = None
+  if draw(st.integers(0, 3)) == 0:
+    # one posting of one source takes 1.5-4 periods (the posting thread falls behind its schedule)
+    k = draw(st.integers(0, n - 1))
+    if sources[k]["period"] > 0 and sources[k]["times"] != 1:
+      stall = {"source": k, "nth": draw(st.integers(0, 2)), "factor": draw(st.sampled_from([1.5, 2.5, 4.0]))}
+  return {"sources": sources, "parked": draw(st.booleans()), "stall": stall,
           # the timed posts are made before the chart is started; it is started 0-2 periods later
           "start_late": draw(st.sampled_from([None, None, None, 0.0, 0.6, 1.3])),
           "plain": draw(st.lists(st.sampled_from(["fifo", "lifo"]), max_size=2)),
@@ -92,7 +98,7 @@ class C10(Prop):
           "[1e-4, 5], or 0 for sources with a repeat count), times n in {0,1,2,3,4,6} and deferred True/False/default, optionally while "
           "the object's thread is parked behind a gate with plain events pending, optionally made "
           "BEFORE start_at (the chart is started 0-1.3 s later), under generated "
-          "schedules. Each posting is stamped with virtual time by an overriding post method. "
+          "schedules; in a quarter of the cases one posting of one source takes 1.5-4 periods of virtual time (the posting thread falls behind; then the oracle is: exact count, first posting not early, never two postings of a source less than a period apart). Each posting is stamped with virtual time by an overriding post method. "
           "Oracle: per source the posting instants equal exactly t0+p, t0+2p, ... (deferred) or "
           "t0, t0+p, ... (not deferred), computed by the same repeated float addition; exactly n "
           "postings by the horizon (max n +3 periods later) for n >= 1, the matching prefix for "
@@ -111,6 +117,14 @@ class C10(Prop):
     Event, signals, rec = w.Event, w.signals, w.rec
     ids = []
     info = {}
+    stall = case.get("stall")
+    if stall and case.get("start_late") is not None:
+      stall = None
+    if stall:
+      # (an endless source with a tiny period next to a long stall would fire without end)
+      endless_ = [x["period"] for x in case["sources"] if x["times"] == 0]
+      if endless_ and 2 * stall["factor"] * case["sources"][stall["source"]]["period"] > 100 * min(endless_):
+        stall = None
 
     def body(s):
       chart, fn = w.make_chart(s)
@@ -125,6 +139,8 @@ class C10(Prop):
         getattr(chart, "post_" + kind)(Event(signal=signals["VA"], payload=900 + j))
       t0 = s.now
       horizon = t0
+      if stall:
+        rec.slow_post = {("VB", stall["source"], stall["nth"]): stall["factor"] * case["sources"][stall["source"]]["period"]}
       for k, src in enumerate(case["sources"]):
         e = Event(signal=signals["VB"], payload=k)
         kw = {"period": src["period"], "times": src["times"]}
@@ -139,6 +155,8 @@ class C10(Prop):
       if endless:
         # an endless source fires until the horizon: keep the number of firings small
         horizon = t0 + 8 * min(endless)
+      if stall:
+        horizon = horizon + 2 * stall["factor"] * case["sources"][stall["source"]]["period"]
       info["t0"], info["horizon"] = t0, horizon
       if late is not None:
         # postings made meanwhile wait in the queue of the not yet started chart
@@ -164,13 +182,34 @@ class C10(Prop):
     stats.case(case, len(srcs) >= 2 or any(x["times"] >= 2 or x["times"] == 0 for x in srcs),
                ["sources_%d" % len(srcs), "parked" if case["parked"] else "running"] +
                ["times_%d" % x["times"] for x in srcs] +
-               ["deferred_%s" % x["deferred"] for x in srcs])
+               ["deferred_%s" % x["deferred"] for x in srcs] + (["slow_posting"] if stall else []))
     posts = info["posts_at_horizon"]
     for k, src in enumerate(srcs):
       mine = [p for p in posts if p["id"] == k and p["sig"] == "VB"]
       got = [p["now"] for p in mine]
       want = expected_instants(info["t0"], src["period"], src["times"], src["deferred"], info["horizon"])
-      if got != want:
+      if stall:
+        # one posting took longer than a period: the instants move, but the source still posts
+        # exactly n times, not before its first due instant, and never twice within one period
+        per = src["period"]
+        ext = 2 * stall["factor"] * srcs[stall["source"]]["period"]
+        due_all = len(expected_instants(info["t0"], per, src["times"], src["deferred"], info["horizon"] - ext)) == src["times"]
+        if src["times"] and (len(got) > src["times"] or (due_all and len(got) != src["times"])):
+          raise PropertyViolation(
+            "source %d (%s, period %r, times %d, deferred %s) posted %d time(s) at %s with posting %d of source %d taking "
+            "%r periods (t0=%r, horizon=%r)" % (k, src["kind"], per, src["times"], src["deferred"], len(got), got,
+                                                stall["nth"], stall["source"], stall["factor"], info["t0"], info["horizon"]),
+            "C10:count-after-stall")
+        if got and want and got[0] < want[0]:
+          raise PropertyViolation("source %d posted first at %r, due at %r" % (k, got[0], want[0]), "C10:instants")
+        close = [(a, b) for a, b in zip(got, got[1:]) if b < a + per]
+        if close:
+          raise PropertyViolation(
+            "source %d (%s, period %r, times %d, deferred %s) posted at %s: two postings less than a period apart %s, after "
+            "posting %d of source %d took %r periods" % (k, src["kind"], per, src["times"], src["deferred"], got,
+                                                         close[0], stall["nth"], stall["source"], stall["factor"]),
+            "C10:burst-after-stall")
+      elif got != want:
         raise PropertyViolation(
           "source %d (%s, period %r, times %d, deferred %s) posted at %s, expected %s (t0=%r, horizon=%r)" % (
             k, src["kind"], src["period"], src["times"], src["deferred"], got, want,
